@@ -164,6 +164,10 @@ MUTANTS = [
 ]
 
 BENIGN = [
+    # equivalent mutants found by the mechanical sweep (DESIGN 8.17): unobservable under serde's protocol / same numeric value
+    dict(name="map_serializer_key_cloned_not_taken", file=SER, **{"from": "        let key = match self.key.take() {", "to": "        let key = match self.key.clone() {"}),
+    dict(name="map_deserializer_value_cloned_not_taken", file=DE, **{"from": "        match self.value.take() {", "to": "        match self.value.clone() {"}),
+    dict(name="i8_arm_visits_i16", file=DE, **{"from": "            Inner::I8(v) => visitor.visit_i8(v),", "to": "            Inner::I8(v) => visitor.visit_i16(v as i16),"}),
     dict(name="deserialize_any_arms_reordered", file=DE, **{"from": "            Inner::Null => visitor.visit_unit(),\n            Inner::Bool(v) => visitor.visit_bool(v),", "to": "            Inner::Bool(v) => visitor.visit_bool(v),\n            Inner::Null => visitor.visit_unit(),"}),
     dict(name="serialize_element_local_renamed", file=SER, **{"from": "        let value = Any::new(value)?;\n        self.0.push(value);\n        Ok(())\n    }\n\n    #[inline]\n    fn end(self) -> Result<Self::Ok, Self::Error> {\n        Ok(Any(Inner::Seq(self.0)))", "to": "        let element = Any::new(value)?;\n        self.0.push(element);\n        Ok(())\n    }\n\n    #[inline]\n    fn end(self) -> Result<Self::Ok, Self::Error> {\n        Ok(Any(Inner::Seq(self.0)))"}),
 ]
